@@ -222,5 +222,7 @@ Definition eff_code (e : eff) : nat :=
    model's effect list, and the outcome of loading the directory is the model's *)
 Definition agree_crash (old : fs) (ds : dataset) (perm : list fname) (k : nat) (trunc : bool)
            (obs_trace : list nat) (obs_outcome : nat) : bool :=
-  lbeq Nat.eqb (firstn (length obs_trace) (map eff_code (save_effects ds perm old))) obs_trace &&
+  let es := save_effects ds perm old in
+  lbeq Nat.eqb (firstn (length obs_trace) (map eff_code es)) obs_trace &&
+  Nat.eqb (length obs_trace) (if Nat.ltb k (length es) then S k else length es) &&
   Nat.eqb (outcome_code (classify old ds (save_crash old ds perm k trunc))) obs_outcome.
